@@ -143,6 +143,10 @@ func (s *scheduler) run() (deadlock bool, blockedDesc string) {
 			}
 		}
 		if len(cands) == 0 {
+			// nothing runnable: time passes - a timer somebody waits for may fire
+			if s.fireSomeTimer() {
+				continue
+			}
 			// threads waiting in quiesce may now continue
 			for _, t := range s.threads {
 				if t.quiesce && t.state != tDone {
@@ -152,10 +156,6 @@ func (s *scheduler) run() (deadlock bool, blockedDesc string) {
 			}
 		}
 		if len(cands) == 0 {
-			// nothing runnable: maybe a timer can fire
-			if s.fireSomeTimer() {
-				continue
-			}
 			desc := ""
 			for _, t := range s.threads {
 				if t.state == tBlocked {
